@@ -1,5 +1,6 @@
 import PB.Model.Db
 import PB.Model.DbInj
+import PB.Gen.DbIter
 /-
 Line protocol of the C02 / C03 drivers: parsing of op lines, canonical printing of results, and the
 multi-interface system state (one shared controller storage, per-interface caches, subscriptions).
@@ -524,6 +525,24 @@ def handleToks (s : Sys) (toks : List String) : Sys × String :=
           (match setField r.form r.fields a pv with
            | none => (s, "setfailed")
            | some fs => s.exec "@api" (.put { r with fields := fs })))
+     | _, _ => (s, "bad-op"))
+  | ["pq", a, _pfx, p, op, ks] =>
+    -- a parked query against concurrent writes (see `pq` in harness/dbx): which records arrive depends on the schedule
+    -- (model `PB.Iter.HandOver`, run on the implementation only); for replays the writes of interface `p` are applied,
+    -- so that the operations that follow agree, and the buffer capacity of the source is shown
+    (match s.iface a, s.iface p with
+     | some _, some _ =>
+       let keys := (splitStr ',' ks).filterMap decKey
+       let ops : List Op := keys.flatMap (fun k =>
+         match op with
+         | "mksecret" => [Op.mkSecret k]
+         | "mkcrown" => [Op.mkCrown k]
+         | "mkboth" => [Op.mkSecret k, Op.mkCrown k]
+         | "del" => [Op.delete k]
+         | "expire" => [Op.setAbs k 5]
+         | _ => [])
+       let s' := ops.foldl (fun st o => (st.exec p o).1) s
+       (s', s!"ok cap={PB.Gen.DbIter.nextCap} (arrivals depend on the schedule)")
      | _, _ => (s, "bad-op"))
   | ["flush", id] => s.exec id .flush
   | ["clear", id] => s.exec id .clear
